@@ -100,7 +100,7 @@ def run(ctx: Ctx) -> None:
                     rep.bad("C01.R1", f.qname, desc, f.loc(n), [f"`{cname}={unparse(a, 40)}` does not derive from its producer; slice: {text[:200]}"], f"{f.name}:{cname}:producer",
                             what=f"{what} in the {role} do not come from the analysis of the function")
     # class composer
-    ic = prog.funcs.get("dds.introspect.InspectFunction.inspect_class")
+    ic = prog.func("dds.introspect.InspectFunction.inspect_class")
     if ic is not None:
         n1 += 1
         cm = [n for n in ic.own_nodes() if isinstance(n, ast.Call) and (prog.dotted(ic, n.func) or "").endswith("dds_hash_commut")]
@@ -227,7 +227,7 @@ def run(ctx: Ctx) -> None:
     # ---- R14: one key per path in an evaluation ----------------------------------------------------------------------------
     rep.rule("C01.R14", "the (path -> signature) map of an evaluation is built with a collision check: a path that the analysis meets with two different "
                         "signatures is refused, because the nested keep looks its key up by path")
-    asp = prog.funcs.get("dds.structures_utils.FunctionInteractionsUtils.all_store_paths")
+    asp = prog.func("dds.structures_utils.FunctionInteractionsUtils.all_store_paths")
     if asp is None:
         raise AnchorError("dds.structures_utils.FunctionInteractionsUtils.all_store_paths not found")
     holders14 = [asp] + [g_ for g_ in prog.funcs.values() if g_ is not asp and any(isinstance(x, ast.Call) and unparse(x.func).endswith("all_store_paths") for x in g_.own_nodes())]
@@ -259,19 +259,22 @@ def run(ctx: Ctx) -> None:
     # ---- R13: the calls made in argument position precede the call that receives their values ------------------------------
     rep.rule("C01.R13", "IntroVisitor.visit_Call visits the sub-expressions of a call (its arguments) before it computes the hash of the previous interactions "
                         "that keys a kept call with run-time arguments: python evaluates the arguments first, so `dds.keep(p, f, helper())` depends on helper")
-    iv13 = prog.classes.get("dds.introspect.IntroVisitor")
+    iv13 = prog.cls("dds.introspect.IntroVisitor")
     vc13 = iv13.methods.get("visit_Call") if iv13 is not None else None
     if vc13 is None:
         raise AnchorError("dds.introspect.IntroVisitor.visit_Call not found")
     c13cfg = cfg_of(vc13)
     gv = [x for x in vc13.own_nodes() if isinstance(x, ast.Call) and isinstance(x.func, ast.Attribute) and x.func.attr == "generic_visit"]
-    prev = [x for x in vc13.own_nodes() if isinstance(x, ast.Call) and unparse(x.func).split(".")[-1] == "_fis_to_siglist"]
+    # the hash of the previous interactions: the call of the order-insensitive combiner made by visit_Call itself (or by a helper of the
+    # visitor / of the module that it calls) - not the one made inside the call inspector
+    def _is_commut(g_, y):
+        return isinstance(y, ast.Call) and (prog.dotted(g_, y.func) or "").endswith("dds_hash_commut")
+    prev = [x for x in vc13.own_nodes() if _is_commut(vc13, x)]
     if not prev:
-        # the previous-interactions hash computed in a helper called from visit_Call
         for x in vc13.own_nodes():
             if isinstance(x, ast.Call):
                 fs_, _d = prog.callees(vc13, x, ctx._types)
-                if any(any(isinstance(y, ast.Call) and unparse(y.func).split(".")[-1] == "_fis_to_siglist" for y in g_.own_nodes()) for g_ in fs_):
+                if any((g_.cls is None or g_.cls is vc13.cls) and any(_is_commut(g_, y) for y in g_.own_nodes()) for g_ in fs_):
                     prev.append(x)
     n13 = 0
     for pcall in prev:
@@ -430,7 +433,7 @@ def context_extent(ctx: Ctx):
     """(method, dds_hash call, kind, function of the bound, bound expression) for every hash of the body lines taken as
     call-site context in IntroVisitor: kind = 'end' (bounded by the call's end line), 'start-only', or 'whole' (no bound)"""
     prog = ctx.prog
-    iv = prog.classes.get("dds.introspect.IntroVisitor")
+    iv = prog.cls("dds.introspect.IntroVisitor")
     if iv is None:
         raise AnchorError("dds.introspect.IntroVisitor not found")
     vc = iv.methods.get("visit_Call")
@@ -479,7 +482,7 @@ def dismiss_rule(ctx: Ctx, rule: str) -> None:
     rep = ctx.report
     prog = ctx.prog
     # ---- R6 -------------------------------------------------------------------------------
-    ro = prog.funcs.get("dds._retrieve_objects.ObjectRetrieval.retrieve_object")
+    ro = prog.func("dds._retrieve_objects.ObjectRetrieval.retrieve_object")
     if ro is None:
         raise AnchorError("dds._retrieve_objects.ObjectRetrieval.retrieve_object not found")
     cfg = cfg_of(ro)
@@ -503,9 +506,8 @@ def dismiss_rule(ctx: Ctx, rule: str) -> None:
 def tracked_type_table(ctx: Ctx, rule: str = "C01.R4") -> None:
     rep = ctx.report
     prog = ctx.prog
-    cls = prog.funcs.get("dds._retrieve_objects._is_authorized_type")
-    if cls is None:
-        raise AnchorError("role type-classifier (dds._retrieve_objects._is_authorized_type) not found")
+    from .roles import type_classifier
+    cls = type_classifier(ctx)
     outer, _h = hasher(ctx)
     tags: List[Tuple[str, type]] = []
     for names, _br, h in all_branches(ctx):
